@@ -3,6 +3,7 @@ import EqsigVerif.Prelude.NpR
 import EqsigVerif.Model.Im
 import EqsigVerif.Model.TimeStep
 import EqsigVerif.Model.Switched
+import EqsigVerif.Model.SwitchedOut
 /-!
 # Object-level statistics of `eqsig/single.py::AccSignal` (hand model, Mathlib-free, exact rationals)
 
@@ -177,7 +178,7 @@ def zeroPeakCore (pk ci : List Int) (minStep : Int) : Except ErrKind (List Int √
 `get_switched_peak_array_indices(pvals)` and `get_zero_crossings_array_indices(zvals)` (defaults `tol=0`, `keep_adj_zeros=False`) -/
 def getZeroAndPeakArrayIndices (pvals : List Rat) (zvals : Option (List Rat)) (minStep : Int) : Except ErrKind (List Int √ó List Int) := do
   let z := match zvals with | none => pvals | some z => z
-  let pk ‚Üê Model.Switched.switchedPeaksE pvals 0
+  let pk ‚Üê Model.Switched.switchedPeaksOutE pvals 0   -- the public function (loop, then np.unique: fix 95bbcf0)
   let ci ‚Üê Model.Switched.zeroCrossingsE z false 0
   zeroPeakCore (pk.map Int.ofNat) (ci.map Int.ofNat) minStep
 
